@@ -648,6 +648,7 @@ var effectExceptions = map[string]string{}
 func ruleEffect(c *Ctx) {
 	for _, b := range c.bodies() {
 		l := c.L
+		b.noUnsafe(l)
 		a := c.effFor(b)
 		perFn := map[string]int{}
 		nSites := 0
